@@ -507,6 +507,67 @@ def formula_probe(pt, core, tables):
             except Exception as exc:  # noqa
                 cases.append({"id": "pickle:%s:%s" % (cid, tname), "kind": "pickle", "ok": False,
                               "observed": "%s: %s" % (type(exc).__name__, str(exc)[:120])})
+    # pickles loaded in ANOTHER interpreter: before a table of that name exists the restore must fail (ValueError), never
+    # hand back an atom of some other table; once the table exists, the atom of that table comes back
+    try:
+        import subprocess
+        import sys as _sys
+        import base64
+        blobs = {cid: base64.b64encode(pickle.dumps(get(T), 2)).decode() for cid, get in
+                 [("element", lambda t: t.Fe), ("isotope", lambda t: t.Fe[56]), ("ion", lambda t: t.Fe.ion[2]),
+                  ("isotope_ion", lambda t: t.Fe[56].ion[2]), ("D", lambda t: t.D)]}
+        child = ("import sys, json, pickle, base64\n"
+                 "sys.path[:0] = %r\n"
+                 "import periodictable as pt\nfrom periodictable import core\n"
+                 "blobs = %r\nout = {}\n"
+                 "for k, b in blobs.items():\n"
+                 "    try:\n"
+                 "        a = pickle.loads(base64.b64decode(b)); out[k + ':before'] = 'returned %%r of table %%r' %% (a, getattr(getattr(a, 'element', a), 'table', getattr(a, 'table', None)))\n"
+                 "    except ValueError as e:\n"
+                 "        out[k + ':before'] = 'ValueError'\n"
+                 "    except Exception as e:\n"
+                 "        out[k + ':before'] = type(e).__name__\n"
+                 "T = core.PeriodicTable(%r)\nfrom periodictable import mass\nmass.init(T)\n"
+                 "for k, b in blobs.items():\n"
+                 "    try:\n"
+                 "        a = pickle.loads(base64.b64decode(b))\n"
+                 "        base = a\n"
+                 "        while hasattr(base, 'element'): base = base.element\n"
+                 "        out[k + ':after'] = 'ok' if base is T[base.number] else 'not an atom of the new table'\n"
+                 "    except Exception as e:\n"
+                 "        out[k + ':after'] = type(e).__name__ + ': ' + str(e)[:80]\n"
+                 "print(json.dumps(out))\n") % ([x for x in _sys.path if x], blobs, P1)
+        pr = subprocess.run([_sys.executable, "-c", child], capture_output=True, text=True, timeout=300)
+        import json as _json
+        out = _json.loads(pr.stdout.strip().split("\n")[-1])
+        for k, v in sorted(out.items()):
+            good = (v == "ValueError") if k.endswith(":before") else (v == "ok")
+            cases.append({"id": "pickle:other-interpreter:%s" % k, "kind": "pickle", "ok": good, "observed": v})
+    except Exception as exc:  # noqa
+        cases.append({"id": "pickle:other-interpreter", "kind": "pickle", "ok": None,
+                      "error": "%s: %s" % (type(exc).__name__, str(exc)[:200])})
+    # atoms outlive the variable that held their table: the table must stay registered as long as its atoms can be pickled
+    try:
+        import gc
+        import copy
+
+        def _only_atoms():
+            tmp = core.PeriodicTable("c10_probe_tmp_table")
+            importlib.import_module("periodictable.mass").init(tmp)
+            return [tmp.Fe, tmp.Fe[56], tmp.Fe.ion[2], tmp.D]
+        kept = _only_atoms()
+        gc.collect()
+        for a in kept:
+            try:
+                ok = pickle.loads(pickle.dumps(a)) is a and copy.deepcopy(a) is a
+                obs = "identity kept" if ok else "another object came back"
+            except Exception as exc:  # noqa
+                ok, obs = False, "%s: %s" % (type(exc).__name__, str(exc)[:100])
+            cases.append({"id": "pickle:table-variable-dropped:%s" % L.atom_key(a), "kind": "pickle", "ok": ok, "observed": obs})
+        core.PRIVATE_TABLES.pop("c10_probe_tmp_table", None)
+    except Exception as exc:  # noqa
+        cases.append({"id": "pickle:table-variable-dropped", "kind": "pickle", "ok": None,
+                      "error": "%s: %s" % (type(exc).__name__, str(exc)[:200])})
     try:
         f = formulas.formula("Fe[56]{2+}OD2", table=T)
         g = pickle.loads(pickle.dumps(f))
